@@ -32,6 +32,19 @@ class Ctx:
         _terms.SIGS = self.prog.signatures()  # keyword arguments of package callables are rendered positionally
         _terms.SIGS.setdefault("open", ("file", "mode", "buffering", "encoding", "errors", "newline"))
         _terms.SIGS.setdefault("pad", ("array", "pad_width", "mode"))  # numpy.pad
+        # dataclass name -> its field names (only names that denote one dataclass in the whole package)
+        dcf = {}
+        for m_ in self.prog.modules.values():
+            for q_, c_ in m_.classes.items():
+                try:
+                    fl_ = tuple(f_[0] for f_ in self.prog.dataclass_fields(c_))
+                except Exception:
+                    fl_ = ()
+                is_dc = any((isinstance(d, ast.Name) and d.id == "dataclass") or (isinstance(d, ast.Call) and isinstance(d.func, ast.Name) and d.func.id == "dataclass") for d in c_.decorator_list)
+                if not is_dc:
+                    continue
+                dcf[c_.name] = None if c_.name in dcf else fl_
+        _terms.DC_FIELDS = {k: v for k, v in dcf.items() if v}
         self.obs = []
         self.notes = []
         self.analysed = {}  # rule -> free-form facts about what was analysed
